@@ -294,7 +294,7 @@ def run(rep: Report, rng, tier: str, known: dict, search: bool = False) -> None:
 def evidence(rep: Report) -> None:
     write_evidence(
         rep,
-        rule="cases = (expression, single-site mutant) from the rule-directed and random streams over all 15 constructors and parameters; per case: tokenised repr against the model's rendering, str == repr, eval(repr) == e with only the public names in scope, the mutant does not print identically, and the same for Partial / Derivative / Differential / LocatedDifferential built on it; 150 generated points with identifier names (incl. 'self', non-ASCII, values of both signs and exponent forms); non-trivial = >= 3 nodes; distinct by wire form",
+        rule="cases = (expression, single-site mutant) from the rule-directed and random streams over all 15 constructors and parameters; per case: tokenised repr against the model's rendering, str == repr, eval(repr) == e with only the public names in scope, the mutant does not print identically, and the same for Partial / Derivative / Differential / LocatedDifferential built on it; 150 generated points with identifier names (incl. 'self', non-ASCII, values of both signs and exponent forms); non-trivial = >= 3 nodes; distinct by wire form; plus points over names keyword syntax cannot spell, names outside the Basic Multilingual Plane, and printing after six prints of a too-tall expression have failed",
         trusted=common.TRUSTED + ["repr(float)/str(int) round-trip in CPython (also exercised by eval)"],
         assumptions=["coordinate names that are Python keywords cannot be written as keyword arguments and are excluded", "finite numeric content"],
     )
